@@ -270,6 +270,24 @@ def conformant_unusual():
     out["variable-items-reordered"] = ref._pdu(1, body + b"".join(items))
     # UID padded with one trailing NUL (PS3.5: allowed for odd-length UID values in some encoders; PS3.8 says no padding - lenient receivers accept)
     out["abstract-syntax-trailing-nul"] = ref._pdu(1, body + ref._item(0x10, APP.encode()) + ref._item(0x20, bytes([1, 0, 0, 0]) + ref._item(0x30, VER.encode() + b"\x00") + ref._item(0x40, T1.encode())) + ref._item(0x50, b"".join(ref.enc_subitem(s) for s in U)))
+    # ... the same single trailing NUL on every other UID-bearing field of an A-ASSOCIATE-RQ / -AC
+    # (odd-length UIDs are used so that the padded field has even length, as padding encoders produce)
+    N = "\x00"
+    odd = "1.2.840.10008.4.2"  # 17 characters
+    nul = {
+        "application-context": dict(base, app=APP + N),
+        "transfer-syntax": dict(base, pcs=[{"id": 1, "abstract": VER, "ts": [T1 + N]}]),
+        "implementation-class-uid": dict(base, user=[("maxlen", 16382), ("implclass", "1.2.3.4.5" + N)]),
+        "role-sop-class": dict(base, user=U + [("role", odd + N, True, True)]),
+        "sopext-sop-class": dict(base, user=U + [("sopext", odd + N, b"\x01\x02")]),
+        "common-sop-class": dict(base, user=U + [("common", odd + N, "1.2.840.10008.4.22", [])]),
+        "common-service-class": dict(base, user=U + [("common", "1.2.840.10008.5.1.4.1.1.2", odd + N, [])]),
+        "common-service-class-with-related": dict(base, user=U + [("common", "1.2.840.10008.5.1.4.1.1.2", odd + N, ["1.2.840.10008.5.1.4.1.1.88.22"])]),
+        "common-related-general": dict(base, user=U + [("common", "1.2.840.10008.5.1.4.1.1.2", "1.2.840.10008.4.22", [odd + N])]),
+    }
+    for k_, v_ in nul.items():
+        out[f"{k_}-trailing-nul"] = ref.encode(v_)
+    out["ac-transfer-syntax-trailing-nul"] = ref.encode({"type": "AC", "pv": 1, "called": "CALLED", "calling": "CALLING", "app": APP, "pcs": [{"id": 1, "result": 0, "ts": T1 + N}], "user": list(U)})
     # A-ASSOCIATE-AC: rejected context carrying an empty transfer syntax item (not significant when rejected)
     acbody = struct.pack(">HH", 1, 0) + ref._ae("CALLED") + ref._ae("CALLING") + b"\x00" * 32 + ref._item(0x10, APP.encode())
     acbody += ref._item(0x21, bytes([1, 0, 3, 0]) + ref._item(0x40, b"")) + ref._item(0x21, bytes([3, 0, 0, 0]) + ref._item(0x40, T1.encode()))
